@@ -6,6 +6,7 @@ import (
 	"strconv"
 	"strings"
 	"sync"
+	"time"
 )
 
 // replay: re-execute the calls of a recorded unit (a replay file written by
@@ -241,17 +242,18 @@ func currentSourceIsInjected() (*fixedReader, bool) { return injected, injected 
 // the same concrete argument in every history.
 
 type pstep struct {
-	Op     string  `json:"op"`
-	Kind   string  `json:"kind,omitempty"`
-	N      int64   `json:"n,omitempty"`
-	Lang   int64   `json:"lang,omitempty"`
-	Script []rstep `json:"script,omitempty"`
-	After  string  `json:"after,omitempty"`
-	Cls    string  `json:"cls,omitempty"`
-	Size   int     `json:"size,omitempty"`
-	Var    int     `json:"var,omitempty"`
-	Fill   int     `json:"fill,omitempty"`
-	Src    *int64  `json:"src,omitempty"` // language whose list the sentence is built from (default: Lang)
+	DelayMs int     `json:"delay_ms,omitempty"` // new: the scripted source takes this long to answer each Read
+	Op      string  `json:"op"`
+	Kind    string  `json:"kind,omitempty"`
+	N       int64   `json:"n,omitempty"`
+	Lang    int64   `json:"lang,omitempty"`
+	Script  []rstep `json:"script,omitempty"`
+	After   string  `json:"after,omitempty"`
+	Cls     string  `json:"cls,omitempty"`
+	Size    int     `json:"size,omitempty"`
+	Var     int     `json:"var,omitempty"`
+	Fill    int     `json:"fill,omitempty"`
+	Src     *int64  `json:"src,omitempty"` // language whose list the sentence is built from (default: Lang)
 }
 
 type program struct {
@@ -292,6 +294,7 @@ func runProgram(p program, seed int64) {
 				if progSrc.after == "" {
 					progSrc.after = "data"
 				}
+				progSrc.delay = time.Duration(st.DelayMs) * time.Millisecond
 				if st.Fill >= 100 {
 					// a repeated stream: every call with this fill number is handed exactly the same bytes (a test
 					// fixture, a deterministic generator restarted from its seed, a recorded stream played again)
